@@ -383,11 +383,14 @@ impl ops::Shr<&Object> for &Object {
 impl Hash for Object {
     fn hash<H: Hasher>(&self, state: &mut H) {
         match self {
-            Object::Integer(ref n) => n.hash(state),
+            // An integer and a float that compare equal must hash alike
+            // (1 == 1.0), so integers are hashed through their float value.
+            Object::Integer(ref n) => state.write_u64((*n as f64).to_bits()),
             Object::Char(ref ch) => ch.hash(state),
             Object::Byte(ref b) => b.hash(state),
             Object::Float(ref f) => {
-                // Use the built-in hash function for f64
+                // 0.0 == -0.0, so both zeros must hash alike
+                let f = if *f == 0.0 { 0.0 } else { *f };
                 state.write_u64(f.to_bits());
             }
             Object::Bool(ref b) => b.hash(state),
